@@ -9,7 +9,11 @@ import (
 	"os/exec"
 	"time"
 
+	depdriver "github.com/modernizing/coca/analysis/dep/app"
+	godriver "github.com/modernizing/coca/analysis/golang/app"
+	pydriver "github.com/modernizing/coca/analysis/python/app"
 	cocacmd "github.com/modernizing/coca/cmd"
+	"github.com/spf13/cobra"
 	"verif/engine"
 )
 
@@ -33,6 +37,89 @@ func init() {
 	}
 }
 
+// "mc cli-of <dep|golang|python> <cwd> <args...>": the root commands of the separate drivers under analysis/.
+func init() {
+	engine.ExtraCmds["cli-of"] = func(args []string) {
+		if len(args) < 2 {
+			os.Exit(2)
+		}
+		if err := os.Chdir(args[1]); err != nil {
+			fmt.Fprintln(os.Stderr, err)
+			os.Exit(2)
+		}
+		var root *cobra.Command
+		switch args[0] {
+		case "dep":
+			root = depdriver.NewRootCmd(os.Stdout)
+		case "golang":
+			root = godriver.NewRootCmd(os.Stdout)
+		case "python":
+			root = pydriver.NewRootCmd(os.Stdout)
+		default:
+			os.Exit(2)
+		}
+		root.SetArgs(args[2:])
+		if err := root.Execute(); err != nil {
+			fmt.Fprintln(os.Stderr, "driver:", err)
+			os.Exit(1)
+		}
+	}
+}
+
+// "mc cliseq <root> <dir> <args...> ;; <dir> <args...> ;; ...": several coca commands in ONE process, each in its
+// own working directory below root (what a long-running embedding of the command layer, or its own test suite,
+// does); every flag must be given every time because cobra keeps flag values between executions.
+func init() {
+	engine.ExtraCmds["cliseq"] = func(args []string) {
+		if len(args) < 2 {
+			os.Exit(2)
+		}
+		root := args[0]
+		var cur []string
+		flush := func() {
+			if len(cur) == 0 {
+				return
+			}
+			if err := os.Chdir(filepath.Join(root, cur[0])); err != nil {
+				fmt.Fprintln(os.Stderr, err)
+				os.Exit(2)
+			}
+			cmd := cocacmd.NewRootCmd(os.Stdout)
+			cmd.SetArgs(cur[1:])
+			if err := cmd.Execute(); err != nil {
+				fmt.Fprintln(os.Stderr, "coca:", err)
+				os.Exit(1)
+			}
+			cur = nil
+		}
+		for _, a := range args[1:] {
+			if a == ";;" {
+				flush()
+				continue
+			}
+			cur = append(cur, a)
+		}
+		flush()
+	}
+}
+
+// runCLISeq runs a sequence of commands in one child process; each element is {dir, args...}.
+func runCLISeq(root string, cmds [][]string) cliResult {
+	argv := []string{"cliseq", root}
+	for i, c := range cmds {
+		if i > 0 {
+			argv = append(argv, ";;")
+		}
+		argv = append(argv, c...)
+	}
+	return runChild(argv)
+}
+
+// runCLIOf executes the root command of one of the drivers under analysis/ in a child process.
+func runCLIOf(kind, cwd string, args ...string) cliResult {
+	return runChild(append([]string{"cli-of", kind, cwd}, args...))
+}
+
 type cliResult struct {
 	Stdout, Stderr string
 	Exit           int
@@ -41,8 +128,12 @@ type cliResult struct {
 
 // runCLI executes `coca <args>` with the given working directory in a child process.
 func runCLI(cwd string, args ...string) cliResult {
+	return runChild(append([]string{"cli", cwd}, args...))
+}
+
+func runChild(argv []string) cliResult {
 	self, _ := os.Executable()
-	cmd := exec.Command(self, append([]string{"cli", cwd}, args...)...)
+	cmd := exec.Command(self, argv...)
 	var so, se bytes.Buffer
 	cmd.Stdout, cmd.Stderr = &so, &se
 	cmd.Env = append(os.Environ(), "GIT_CONFIG_GLOBAL=/dev/null", "GIT_CONFIG_NOSYSTEM=1")
